@@ -28,3 +28,8 @@ Definition run_glr_210 (s : sx) : sx :=
 (* 211: the revisit order: (keys other) -> order *)
 Definition run_glr_211 (s : sx) : sx :=
   ofNats (revisit_order (sxNats (sx_nth s 0)) (sxNats (sx_nth s 1))).
+
+(* 212: the boolean conditions of the tokenisation theorem: (pconf pinput) -> bool *)
+From PV Require Import Spec.GLRSpec.
+Definition run_glr_212 (s : sx) : sx :=
+  ofB (glr_tok_checks (pconf_of_sx (sx_nth s 0)) (pinput_of_sx (sx_nth s 1))).
